@@ -353,7 +353,9 @@ func (c *Context) Quo(d, x, y *Decimal) (Condition, error) {
 			rem.Mul(&rem, bigTwo)
 			half := rem.Cmp(&divisor)
 			if c.Rounding.ShouldAddOne(&d.Coeff, d.Negative, half) {
-				d.Coeff.Add(&d.Coeff, bigOne)
+				// roundAddOne drops the extra digit of an all-nines carry
+				// and reports it in the exponent.
+				roundAddOne(&d.Coeff, &shift)
 				// The coefficient changed, so recompute num digits in
 				// setExponent.
 				nd = unknownNumDigits
